@@ -178,14 +178,90 @@ func isByteSlice(v []value) bool {
 	return true
 }
 
-// decimalOf: decimal digits of a symbolic integer: concretised by forking (only small ranges are practical).
+// decimalOf: decimal digits of a symbolic integer.  The digit count is decided by forking
+// (a string has concrete length); the digits are terms (x / 10^k) % 10 that cost nothing unless
+// asserted, and carry provenance so that parsing them back yields x without arithmetic.
+type decProvEntry struct {
+	x    *term.Term
+	k, n int
+	neg  bool
+}
+
+var decProv = map[*term.Term]decProvEntry{}
+
 func decimalOf(v symv) []value {
-	n := concretise(v)
+	t := v.t
+	w := t.Sort.W
+	neg := false
 	if v.sgn {
-		w := uint(64 - v.t.Sort.W)
-		return toBytes(strconv.FormatInt(int64(n<<w)>>w, 10))
+		if Branch(term.Cmp("bvslt", t, term.Const(w, 0))) {
+			neg = true
+			t = term.Neg(t)
+		}
 	}
-	return toBytes(strconv.FormatUint(n, 10))
+	maxDigits := map[int]int{8: 3, 16: 5, 32: 10, 64: 20}[w]
+	n := 1
+	pow := uint64(10)
+	for n < maxDigits {
+		if Branch(term.Cmp("bvult", t, term.Const(w, pow))) {
+			break
+		}
+		n++
+		pow *= 10
+	}
+	var out []value
+	if neg {
+		out = append(out, byte('-'))
+	}
+	p10 := func(k int) uint64 {
+		r := uint64(1)
+		for i := 0; i < k; i++ {
+			r *= 10
+		}
+		return r
+	}
+	for k := n - 1; k >= 0; k-- {
+		q := t
+		if k > 0 {
+			q = term.Bin("bvudiv", t, term.Const(w, p10(k)))
+		}
+		d := term.Bin("bvurem", q, term.Const(w, 10))
+		c := term.Bin("bvadd", term.Extract(7, 0, d), term.Const(8, '0'))
+		if !c.IsConst() {
+			decProv[c] = decProvEntry{v.t, k, n, neg}
+		}
+		out = append(out, byteVal(c))
+	}
+	return out
+}
+
+// parseDecProv recognises a digit string produced by decimalOf and returns the original value.
+func parseDecProv(bs []value) (*term.Term, bool, bool) {
+	if len(bs) == 0 {
+		return nil, false, false
+	}
+	neg := false
+	if c, ok := bs[0].(byte); ok && c == '-' {
+		neg = true
+		bs = bs[1:]
+	}
+	var x *term.Term
+	for i, b := range bs {
+		sv, ok := b.(symv)
+		if !ok {
+			return nil, false, false
+		}
+		e, ok := decProv[sv.t]
+		if !ok || e.n != len(bs) || e.k != len(bs)-1-i || e.neg != neg {
+			return nil, false, false
+		}
+		if x == nil {
+			x = e.x
+		} else if x != e.x {
+			return nil, false, false
+		}
+	}
+	return x, neg, x != nil
 }
 
 // sprintf implements the subset of fmt verbs the anchored code uses, over possibly symbolic operands.
